@@ -463,6 +463,23 @@ def rewrite_body(text, rules_log, intended_panics=False, keep_asserts=False):
                         out.append(Tok("ident", fn + "()", t.pos))
                         i = close + 1
                         continue
+        # R5c: `.unwrap_or_else(|_| { panic!(..) })`  ->  `.vunwrap_or_panic()` (unwrap with a custom panic message)
+        if t.kind == "ident" and t.text == "unwrap_or_else":
+            j = _next_sig(toks, i + 1)
+            if j < n and toks[j].text == "(":
+                close = match_close(toks, j)
+                inner = [x for x in toks[j + 1:close] if x.kind not in ("ws", "comment")]
+                txt = [x.text for x in inner]
+                if len(txt) >= 6 and txt[0] == "|" and txt[2] == "|":
+                    rest = txt[3:]
+                    if rest and rest[0] == "{" and rest[-1] == "}":
+                        rest = rest[1:-1]
+                    if len(rest) >= 3 and rest[0] in ("panic", "unreachable") and rest[1] == "!" and rest[-1] in (")", "]", "}", ";"):
+                        # make sure the macro call spans the whole rest
+                        rules_log.append(("R5c", norm("".join(x.text for x in toks[i:close + 1]))[:200] + "  =>  vunwrap_or_panic()"))
+                        out.append(Tok("ident", "vunwrap_or_panic()" if intended_panics else "vunwrap_or_vpanic()", t.pos))
+                        i = close + 1
+                        continue
         # R10: closure parameter `_`
         if t.kind == "punct" and t.text == "|":
             j = _next_sig(toks, i + 1)
